@@ -108,6 +108,7 @@ static long h_recv(sn_conn *c, size_t avail, size_t cap) {
 	size_t pos = c->in_off, b, k;
 	ev_t *e;
 	if (budget()) return -ECONNABORTED;
+	if (cs && (cs->cmode == CM_HUP || cs->cmode == CM_REFUSED || cs->cmode == CM_NEVER)) return -ECONNREFUSED;   /* never established: carries no data */
 	if (cs) {
 		if (cs->rx.dead == A_CLOSE) return 0;
 		if (cs->rx.dead == A_RESET) return -ECONNRESET;
@@ -126,6 +127,7 @@ static long h_send(sn_conn *c, const void *buf, size_t len) {
 	ev_t *e;
 	(void)buf;
 	if (budget()) return -ECONNABORTED;
+	if (cs && (cs->cmode == CM_HUP || cs->cmode == CM_REFUSED || cs->cmode == CM_NEVER)) return -ENOTCONN;       /* never established: carries no data */
 	if (cs) {
 		if (cs->tx.dead) return -ECONNRESET;
 		if ((e = ev_due(&cs->tx, pos, pos)) != NULL) return act_answer(cs, 2, e, c);
@@ -976,6 +978,9 @@ static void scenario(const scen_t *sc) {
 		/* served: the whole response was delivered -> must complete (unless the client itself had to give the connection up);
 		 * not served (response cut, or the server never saw the whole request): must end with a network error */
 		int expect = sv ? (soft ? X_ANY : X_MUST_OK) : X_MUST_NETERR;
+		/* the first connection was refused / never came up: the requests waiting for it are ended with a network error
+		 * (they are not kept for a later connection) */
+		if (j < sc->n1 && (CS[0].cmode == CM_HUP || CS[0].cmode == CM_REFUSED || CS[0].cmode == CM_NEVER)) expect = X_MUST_NETERR;
 		judge_request(&E, j, j < sc->n1 ? expect : X_MUST_OK, sc->cls, j < sc->n1 ? "first" : "later", sc->horizon);
 	}
 	if (wire_check(sc->cls) == 0) {
